@@ -208,31 +208,21 @@ func ParseControlFile(data []byte) (*ControlFile, error) {
 	// CheckPoint.oldestActiveXid: TransactionId at offset 120
 	cf.OldestActiveXID = binary.LittleEndian.Uint32(data[120:124])
 
-	// After CheckPoint structure, more fields follow
-	// The exact offsets depend on version, but we can search for known patterns
-
-	// Configuration parameters section starts around offset 200-220
-	// Look for the wal_level and other settings
-
-	// Find the configuration section by looking for max_connections pattern
-	// These are typically small positive integers in sequence
-	configOffset := findConfigSection(data, 180)
-	if configOffset > 0 {
-		// max_connections at configOffset
-		cf.MaxConnections = int32(binary.LittleEndian.Uint32(data[configOffset : configOffset+4]))
-		cf.MaxWorkerProcesses = int32(binary.LittleEndian.Uint32(data[configOffset+4 : configOffset+8]))
-		cf.MaxWALSenders = int32(binary.LittleEndian.Uint32(data[configOffset+8 : configOffset+12]))
-		cf.MaxPreparedXacts = int32(binary.LittleEndian.Uint32(data[configOffset+12 : configOffset+16]))
-		cf.MaxLocksPerXact = int32(binary.LittleEndian.Uint32(data[configOffset+16 : configOffset+20]))
-
-		// wal_level is before max_connections
-		walLevel := int(binary.LittleEndian.Uint32(data[configOffset-8 : configOffset-4]))
-		if walLevel >= 0 && walLevel < len(walLevelNames) {
-			cf.WALLevel = walLevelNames[walLevel]
-		}
-		cf.WALLogHints = data[configOffset-4] != 0
-		cf.TrackCommitTS = data[configOffset+20] != 0
+	// The rest of ControlFileData has fixed offsets in PostgreSQL 12-16:
+	// wal_level (int) at 172, wal_log_hints (bool) at 176, MaxConnections at 180,
+	// max_worker_processes at 184, max_wal_senders at 188, max_prepared_xacts at 192,
+	// max_locks_per_xact at 196, track_commit_timestamp (bool) at 200
+	walLevel := int(binary.LittleEndian.Uint32(data[172:176]))
+	if walLevel >= 0 && walLevel < len(walLevelNames) {
+		cf.WALLevel = walLevelNames[walLevel]
 	}
+	cf.WALLogHints = data[176] != 0
+	cf.MaxConnections = int32(binary.LittleEndian.Uint32(data[180:184]))
+	cf.MaxWorkerProcesses = int32(binary.LittleEndian.Uint32(data[184:188]))
+	cf.MaxWALSenders = int32(binary.LittleEndian.Uint32(data[188:192]))
+	cf.MaxPreparedXacts = int32(binary.LittleEndian.Uint32(data[192:196]))
+	cf.MaxLocksPerXact = int32(binary.LittleEndian.Uint32(data[196:200]))
+	cf.TrackCommitTS = data[200] != 0
 
 	// Storage parameters - find by looking for block_size (8192)
 	storageOffset := findStorageSection(data, 220)
@@ -276,26 +266,6 @@ func ParseControlFile(data []byte) (*ControlFile, error) {
 	}
 
 	return cf, nil
-}
-
-// findConfigSection finds the configuration parameters section
-func findConfigSection(data []byte, startOffset int) int {
-	// Look for max_connections pattern (typically 100)
-	// followed by max_worker_processes (typically 8)
-	for i := startOffset; i < len(data)-24 && i < 280; i += 4 {
-		val1 := int32(binary.LittleEndian.Uint32(data[i : i+4]))
-		val2 := int32(binary.LittleEndian.Uint32(data[i+4 : i+8]))
-
-		// max_connections is usually 100, max_worker_processes is usually 8
-		if val1 >= 1 && val1 <= 10000 && val2 >= 1 && val2 <= 1000 {
-			// Verify by checking max_wal_senders (typically 10)
-			val3 := int32(binary.LittleEndian.Uint32(data[i+8 : i+12]))
-			if val3 >= 0 && val3 <= 1000 {
-				return i
-			}
-		}
-	}
-	return 0
 }
 
 // findStorageSection finds the storage parameters section
